@@ -73,7 +73,7 @@ def frame(lv, holes=False, cat=False):
         df = frame(lv, holes).copy()
         for c in ("f", "f2", "g", "h"):
             lvls = sorted(set(df[c]))
-            df[c] = pd.Categorical(df[c], categories=lvls[1:][::-1] + lvls[:1])
+            df[c] = pd.Categorical(df[c], categories=lvls[1:][::-1] + lvls[:1], ordered=(cat == "ord"))  # "ord": a declared order other than the sorted one
         _FR[key] = df
     if key not in _FR:
         d = dict(zip(["f", "f2", "g", "h", "k"], lv))
@@ -124,8 +124,9 @@ def units(tier, seed):
         ]
         u.append([{"lv": list(lv), "holes": holes, "terms": p} for p in pairs])
         if lv == vecs[0]:
-            u.append([dict(c, cat=True) for c in block])
-            u.append([{"lv": list(lv), "holes": holes, "terms": p, "cat": True} for p in pairs])
+            for kind in (True, "ord"):
+                u.append([dict(c, cat=kind) for c in block])
+                u.append([{"lv": list(lv), "holes": holes, "terms": p, "cat": kind} for p in pairs])
     # many cells: 6 x 7 = 42 columns in the indicator of g:h
     big = [3, 2, 6, 7, 2]
     u.append([{"lv": big, "holes": False, "terms": [[e, z, g]]} for e in ("1", "x", "f", "scale(x)") for z in (False, True) if not (e == "1" and z) for g in ("g:h", "h:g", "g/h")])
@@ -146,11 +147,20 @@ def formula_of(case):
 SUMC = {"C(f, Sum)": "f", "S(f2)": "f2"}
 
 
+def levels_of(col):
+    """Levels as the library orders them: the declared order of an ordered Categorical, else the sorted observed values."""
+    import pandas as pd
+
+    if isinstance(col.dtype, pd.CategoricalDtype) and col.dtype.ordered:
+        return [c for c in col.cat.categories if (col == c).any()]
+    return sorted(set(col))
+
+
 def atom_value(atom, df, train=None):
     """Value of an effect atom on df; parameters learnt from data (scale) and level sets come from `train`."""
     train = df if train is None else train
     if atom in SUMC:
-        return frames.indicators(df[SUMC[atom]], sorted(set(train[SUMC[atom]])))[0]
+        return frames.indicators(df[SUMC[atom]], levels_of(train[SUMC[atom]]))[0]
     if atom == "scale(x)":
         x = df["x"].to_numpy(dtype=float)
         xt = train["x"].to_numpy(dtype=float)
@@ -158,7 +168,8 @@ def atom_value(atom, df, train=None):
     if atom in ("x", "z"):
         return df[atom].to_numpy(dtype=float)[:, None]
     col = df["k"] if atom == "C(k)" else df[atom]
-    return frames.indicators(col)[0]
+    tcol = train["k"] if atom == "C(k)" else train[atom]
+    return frames.indicators(col, levels_of(tcol))[0]
 
 
 def cells(fac_atoms, df, train=None):
@@ -167,7 +178,7 @@ def cells(fac_atoms, df, train=None):
     levs = []
     for a in fac_atoms:
         col = train["k"] if a == "C(k)" else train[a]
-        levs.append(sorted(set(col)))
+        levs.append(levels_of(col))
     names, cols = [], []
     for combo in itertools.product(*levs):
         m = np.ones(len(df))
@@ -192,7 +203,7 @@ def label_value(lab, df, train=None):
             lvl = lvl[:-1]
             if name in SUMC:  # sum coding: indicator of the level minus indicator of the omitted (last) level; 'mean' is the constant
                 col = df[SUMC[name]]
-                last = sorted(set(train[SUMC[name]]))[-1]
+                last = levels_of(train[SUMC[name]])[-1]
                 if lvl == "mean":
                     continue
                 val = val * (np.array([1.0 if str(v) == lvl else 0.0 for v in col]) - np.array([1.0 if v == last else 0.0 for v in col]))
@@ -278,10 +289,13 @@ def later_blocks(case, dm, exp, df, acc):
     old = formulae.config["EVAL_UNSEEN_CATEGORIES"]
     try:
         formulae.config["EVAL_UNSEEN_CATEGORIES"] = "silent"
-        for col in ("g", "h"):
+        for col in ("g", "h", "k"):
             cur = df.iloc[list(range(h))].reset_index(drop=True).copy()
-            cur[col] = cur[col].astype(object)
-            cur.loc[[0, h - 1], col] = "zz new"
+            if col == "k":
+                cur.loc[[0, h - 1], col] = 777
+            else:
+                cur[col] = cur[col].astype(object)
+                cur.loc[[0, h - 1], col] = "zz new"
             acc.calls += 1
             try:
                 r = grp.evaluate_new_data(cur)
@@ -291,7 +305,7 @@ def later_blocks(case, dm, exp, df, acc):
             for name in grp.terms:
                 if name in exp:
                     ef, fac = exp[name]
-                    unseen = (cur[col] == "zz new").to_numpy() if col in fac else None
+                    unseen = cur[col].isin(["zz new", 777]).to_numpy() if (col in fac or (col == "k" and "C(k)" in fac)) else None
                     out += block_of(name, r[name], grp.terms[name], ef, fac, cur, df, f"on a new frame with an unseen level of {col}", unseen)
             if out:
                 return out
